@@ -29,14 +29,23 @@ func (pool FarmPool) ExpiredHeight() (int64, error) {
 
 func (pool FarmPool) CaclRewards(farmInfo FarmInfo, deltaAmt sdkmath.Int) (rewards, rewardDebt sdk.Coins) {
 	for _, r := range pool.Rules {
+		// unpaid is the part of the accrued reward that is not paid out now (less than one
+		// base unit). It stays owed: the new debt is rounded up after deducting it, so that
+		// the payouts of all farmers never add up to more than the collected rewards.
+		unpaid := sdkmath.LegacyZeroDec()
 		if farmInfo.Locked.GT(sdkmath.ZeroInt()) {
-			pendingRewardTotal := r.RewardPerShare.MulInt(farmInfo.Locked).TruncateInt()
-			pendingReward := pendingRewardTotal.Sub(farmInfo.RewardDebt.AmountOf(r.Reward))
+			accrued := r.RewardPerShare.MulInt(farmInfo.Locked).
+				Sub(sdkmath.LegacyNewDecFromInt(farmInfo.RewardDebt.AmountOf(r.Reward)))
+			pendingReward := accrued.TruncateInt()
+			if pendingReward.IsNegative() {
+				pendingReward = sdkmath.ZeroInt()
+			}
+			unpaid = accrued.Sub(sdkmath.LegacyNewDecFromInt(pendingReward))
 			rewards = rewards.Add(sdk.NewCoin(r.Reward, pendingReward))
 		}
 
 		locked := farmInfo.Locked.Add(deltaAmt)
-		debt := sdk.NewCoin(r.Reward, r.RewardPerShare.MulInt(locked).TruncateInt())
+		debt := sdk.NewCoin(r.Reward, r.RewardPerShare.MulInt(locked).Sub(unpaid).Ceil().TruncateInt())
 		rewardDebt = rewardDebt.Add(debt)
 	}
 	return rewards, rewardDebt
